@@ -18,6 +18,7 @@ type fn struct {
 	d             *ast.FuncDecl
 	recv          *ast.Object
 	recvT         string // record name, "" for a plain function
+	ptrRecv       bool   // pointer receiver
 	optRecv       bool   // the body compares the receiver with nil
 	params        []*ast.Ident
 	ptypes        []string
@@ -230,6 +231,7 @@ func (t *tr) newFn(key string, d *ast.FuncDecl) *fn {
 			t.fail(d, "receiver of %s", key)
 		}
 		f.recv, f.recvT = r.Names[0].Obj, t.typ(r.Type)
+		_, f.ptrRecv = r.Type.(*ast.StarExpr)
 		if t.recs[f.recvT] == nil {
 			t.fail(r.Type, "receiver type %s", t.src(r.Type))
 		}
@@ -404,6 +406,7 @@ type fctx struct {
 	cont  func() string
 	elem  map[*ast.Object][2]string // `for i := range xs`: i -> (source text of xs, Gallina name of xs[i])
 	made  ast.Node                  // the make(chan) of this function (at most one)
+	owned map[*ast.Object]bool      // locals initialised by a struct literal: the only non-receiver variables whose fields may be assigned
 }
 
 var reserved = strings.Fields(`as at cofix else end exists exists2 fix for forall fun if IF in let match mod Prop return
@@ -444,7 +447,10 @@ func (t *tr) translate(f *fn) {
 		t.fail(f.d, "recursion through %s", f.key)
 	}
 	f.busy = true
-	c := &fctx{t: t, f: f, names: map[*ast.Object]string{}, types: map[*ast.Object]string{}, used: map[string]bool{}, elem: map[*ast.Object][2]string{}}
+	if f.mut && !f.ptrRecv {
+		t.fail(f.d, "method %s, which modifies a value receiver", f.key)
+	}
+	c := &fctx{t: t, f: f, names: map[*ast.Object]string{}, types: map[*ast.Object]string{}, used: map[string]bool{}, elem: map[*ast.Object][2]string{}, owned: map[*ast.Object]bool{}}
 	for _, r := range reserved {
 		c.used[r] = true
 	}
@@ -693,6 +699,7 @@ func (c *fctx) assign(l ast.Expr, v, ty string, define bool) string {
 		if define {
 			return "let " + c.declare(x, ty) + " := " + v + " in\n"
 		}
+		delete(c.owned, x.Obj)
 		if n, ok := c.names[x.Obj]; ok && x.Obj != nil {
 			return "let " + n + " := " + v + " in\n"
 		}
@@ -700,8 +707,8 @@ func (c *fctx) assign(l ast.Expr, v, ty string, define bool) string {
 		if id, ok := x.X.(*ast.Ident); ok && c.names[id.Obj] != "" && t.recs[c.types[id.Obj]] != nil {
 			return "let " + c.names[id.Obj] + " := " + v + " in\n"
 		}
-	case *ast.SelectorExpr: // x.f = v
-		if id, ok := x.X.(*ast.Ident); ok && id.Obj != nil && c.names[id.Obj] != "" {
+	case *ast.SelectorExpr: // x.f = v: x is the receiver or a local that holds a fresh struct (pointers alias, copies do not)
+		if id, ok := x.X.(*ast.Ident); ok && id.Obj != nil && c.names[id.Obj] != "" && (id.Obj == c.f.recv || c.owned[id.Obj]) {
 			if fl := c.field(c.types[id.Obj], x.Sel); fl != nil {
 				n := c.names[id.Obj]
 				return "let " + n + " := set_" + fl.coq + " " + n + " " + paren(v) + " in\n"
@@ -709,7 +716,8 @@ func (c *fctx) assign(l ast.Expr, v, ty string, define bool) string {
 		}
 	case *ast.IndexExpr: // m[k] = v
 		m, mt := c.expr(x.X, "")
-		if strings.HasPrefix(mt, "alist ") {
+		_, isField := x.X.(*ast.SelectorExpr) // maps are references: only a map held in a field of the receiver may be assigned
+		if r := rootIdent(x.X); strings.HasPrefix(mt, "alist ") && isField && r != nil && r.Obj == c.f.recv {
 			key, _ := c.expr(x.Index, "string")
 			return c.assign(x.X, "update "+paren(m)+" "+paren(key)+" "+paren(v), mt, false)
 		}
@@ -761,7 +769,11 @@ func (c *fctx) assignStmt(s *ast.AssignStmt, k func() string) string {
 	}
 	if len(s.Lhs) == 1 {
 		v, ty := c.expr(s.Rhs[0], c.lhsType(s.Lhs[0], def))
-		return c.assign(s.Lhs[0], v, ty, def) + k()
+		out := c.assign(s.Lhs[0], v, ty, def)
+		if id, ok := s.Lhs[0].(*ast.Ident); ok && id.Obj != nil && isStructLit(s.Rhs[0]) {
+			c.owned[id.Obj] = true
+		}
+		return out + k()
 	}
 	out, tmps, tys := "", []string{}, []string{} // a, b = x, y: all right-hand sides first
 	for i, r := range s.Rhs {
@@ -786,6 +798,14 @@ func (c *fctx) lhsType(l ast.Expr, def bool) string {
 	}
 	_, ty := c.expr(l, "")
 	return ty
+}
+
+func isStructLit(e ast.Expr) bool {
+	if u, ok := e.(*ast.UnaryExpr); ok && u.Op == token.AND {
+		e = u.X
+	}
+	_, ok := e.(*ast.CompositeLit)
+	return ok
 }
 
 func unparen(s string) string {
